@@ -38,6 +38,7 @@ def _nleaves(res):
 
 
 def run_shard(ctx):
+    gg.ALLOW_PREFIXED = False  # a name T_x is a selection node for the transport algorithms
     mon_id.install(semantic=False)
     mon_trso.install(semantic=False)
     mon_cf.install_idcstar()
